@@ -197,7 +197,10 @@ func CheckRange(
 
 	integerValue := new(big.Int).Set(unsignedIntegerValue)
 	if negative {
-		if minIntSign == 0 && negative {
+		// A negative number is below a zero minimum, unless it is (negative) zero
+		if minIntSign == 0 &&
+			(unsignedIntegerValue.Sign() != 0 || fractionalValue.Sign() != 0) {
+
 			return false
 		}
 
